@@ -4,6 +4,7 @@ import (
 	"context"
 	"errors"
 	"fmt"
+	"math"
 	"net"
 	"os"
 	"path/filepath"
@@ -135,7 +136,30 @@ func c11Visible(cands []C11Cand, loc int, v6 bool) (all, positive map[string]boo
 	return
 }
 
-var chi2Crit = []float64{0, 37.32, 41.45, 44.84, 47.88, 50.69, 53.34, 55.87, 58.31, 60.66, 62.95, 65.17, 67.35}
+// c11Disproportion tests every address against its binomial expectation with the Chernoff bound
+// P(deviation at least this large) <= exp(-n*KL(observed/n || p)), which holds for every n and p (a
+// chi-square table does not when an expected count is small: one draw of an address expected 0.005
+// times gives chi-square 200). An address is reported when the bound is below e^-30.
+func c11Disproportion(n int, ips []string, weights []float64, total float64, count map[string]int) (string, [2]float64) {
+	const limit = 30.0
+	term := func(a, b float64) float64 {
+		if a == 0 {
+			return 0
+		}
+		return a * math.Log(a/b)
+	}
+	for i, ip := range ips {
+		p := weights[i] / total
+		if p <= 0 || p >= 1 {
+			continue
+		}
+		q := float64(count[ip]) / float64(n)
+		if d := float64(n) * (term(q, p) + term(1-q, 1-p)); d > limit {
+			return ip, [2]float64{float64(n) * p, d}
+		}
+	}
+	return "", [2]float64{}
+}
 
 func runC11(t *testing.T, sc C11Scenario, keep bool) *core.Result {
 	res := &core.Result{Population: "fault-free"}
@@ -330,23 +354,8 @@ func runC11(t *testing.T, sc C11Scenario, keep bool) *core.Result {
 				}
 				count[r.Answer[0].(*dns.A).A.String()]++
 			}
-			// merge cells with tiny expectation into their neighbour so that the chi-square
-			// approximation holds (expected >= 5)
-			chi, df := 0.0, -1
-			accE, accO := 0.0, 0.0
-			for i, ip := range ips {
-				accE += N * weights[i] / total
-				accO += float64(count[ip])
-				if accE >= 5 || i == len(ips)-1 {
-					if accE > 0 {
-						chi += (accO - accE) * (accO - accE) / accE
-						df++
-					}
-					accE, accO = 0, 0
-				}
-			}
-			if df >= 1 && df < len(chi2Crit) && chi > chi2Crit[df] {
-				res.Add("not-proportional", "not-proportional", fmt.Sprintf("%d draws over weights %v gave counts %v: chi-square %.1f with %d degrees of freedom (p < 1e-9)", N, weights, count, chi, df))
+			if cell, dev := c11Disproportion(N, ips, weights, total, count); cell != "" {
+				res.Add("not-proportional", "not-proportional", fmt.Sprintf("%d draws over weights %v gave counts %v: %s was chosen %d times where %.1f were expected (probability of a deviation this large < e^-%.0f)", N, weights, count, cell, count[cell], dev[0], dev[1]))
 			}
 			res.Probe("proportionality_tested")
 		}
@@ -375,21 +384,8 @@ func runC11(t *testing.T, sc C11Scenario, keep bool) *core.Result {
 					}
 				}
 			}
-			chi, df := 0.0, -1
-			accE, accO := 0.0, 0.0
-			for i, ip := range gips {
-				accE += N * gw[i] / gtotal
-				accO += float64(count[ip])
-				if accE >= 5 || i == len(gips)-1 {
-					if accE > 0 {
-						chi += (accO - accE) * (accO - accE) / accE
-						df++
-					}
-					accE, accO = 0, 0
-				}
-			}
-			if df >= 1 && df < len(chi2Crit) && chi > chi2Crit[df] {
-				res.Add("not-proportional", "not-proportional|glue", fmt.Sprintf("%d NS queries over glue weights %v gave counts %v: chi-square %.1f with %d degrees of freedom (p < 1e-9)", N, gw, count, chi, df))
+			if cell, dev := c11Disproportion(N, gips, gw, gtotal, count); cell != "" {
+				res.Add("not-proportional", "not-proportional|glue", fmt.Sprintf("%d NS queries over glue weights %v gave counts %v: %s was chosen %d times where %.1f were expected (probability of a deviation this large < e^-%.0f)", N, gw, count, cell, count[cell], dev[0], dev[1]))
 			}
 			res.Probe("glue_proportionality_tested")
 		}
